@@ -129,6 +129,12 @@ func init() {
 				keys = append(keys, "\x18\x1aa", "\x18\x1ab")
 				meta["probe"] = fmt.Sprint(len(keys) - 1)
 			}
+			// one configuration in four shows the matching bracket (a display feature that leaves a mark in the
+			// selection between two redisplays), on buffers that have brackets under the cursor now and then
+			if r.Intn(4) == 0 {
+				sp.Inputrc += "set blink-matching-paren on\n"
+				meta["blink"] = "1"
+			}
 			sp.Chunks = hexChunks(keys)
 			return Case{Specs: []Spec{sp}, Class: meta["kind"] + "/" + meta["cmd"], Meta: meta}
 		},
